@@ -13,9 +13,8 @@ Variable c : ctx.
 (* the context's key for the default kind is in the plain list *)
 Definition in_plain (l : list str) (pre : option (list str)) : bool :=
   match ctx_key_by_kind c kind_user with Some k => find_key k l pre | None => false end.
-(* per-kind lists are consulted unless the context is solely of kind user *)
-Definition per_kind (ts : list segtarget) : bool :=
-  negb (str_eqb (ctx_kind c) kind_user) && existsb (seg_target_matches c) ts.
+(* per-kind lists: the key the context has for the entry's kind is in the entry's list *)
+Definition per_kind (ts : list segtarget) : bool := existsb (seg_target_matches c) ts.
 
 Definition included_any (sg : segment) : bool := in_plain (sg_included sg) (sg_pre_inc sg) || per_kind (sg_inc_ctx sg).
 Definition excluded_any (sg : segment) : bool := in_plain (sg_excluded sg) (sg_pre_exc sg) || per_kind (sg_exc_ctx sg).
@@ -27,12 +26,33 @@ Proof.
   unfold regular_lists, included_any, excluded_any, in_plain, per_kind.
   destruct (ctx_key_by_kind c kind_user) as [k|]; simpl.
   - destruct (find_key k (sg_included sg) (sg_pre_inc sg)); simpl; [reflexivity|].
-    destruct (negb (str_eqb (ctx_kind c) kind_user) && existsb (seg_target_matches c) (sg_inc_ctx sg)); simpl; [reflexivity|].
+    destruct (existsb (seg_target_matches c) (sg_inc_ctx sg)); simpl; [reflexivity|].
     destruct (find_key k (sg_excluded sg) (sg_pre_exc sg)); simpl; [reflexivity|].
-    destruct (negb (str_eqb (ctx_kind c) kind_user) && existsb (seg_target_matches c) (sg_exc_ctx sg)); reflexivity.
-  - destruct (negb (str_eqb (ctx_kind c) kind_user) && existsb (seg_target_matches c) (sg_inc_ctx sg)); simpl; [reflexivity|].
-    destruct (negb (str_eqb (ctx_kind c) kind_user) && existsb (seg_target_matches c) (sg_exc_ctx sg)); reflexivity.
+    destruct (existsb (seg_target_matches c) (sg_exc_ctx sg)); reflexivity.
+  - destruct (existsb (seg_target_matches c) (sg_inc_ctx sg)); simpl; [reflexivity|].
+    destruct (existsb (seg_target_matches c) (sg_exc_ctx sg)); reflexivity.
 Qed.
+
+(* "its key is in an included list for one of its kinds", whatever the shape of the context: a per-kind list decides
+   for a context -- single-kind or multi-kind -- exactly when the context has an individual context of the entry's kind
+   whose key is listed (entries without precomputed data; the precomputed form is C14's business) *)
+Lemma per_kind_spec ts : Forall (fun t => st_pre t = None) ts ->
+  (per_kind ts = true <-> exists t x, In t ts /\ ctx_by_kind c (st_kind t) = Some x /\ In (c_key x) (st_values t)).
+Proof.
+  intros Hp. unfold per_kind. rewrite existsb_exists. rewrite Forall_forall in Hp. split.
+  - intros [t [Hin Hm]]. unfold seg_target_matches, ctx_key_by_kind in Hm.
+    destruct (ctx_by_kind c (st_kind t)) as [x|] eqn:Hx; [|discriminate]. cbn [option_map] in Hm.
+    rewrite (Hp t Hin) in Hm. unfold find_key in Hm. apply mem_str_In in Hm. exists t, x. auto.
+  - intros [t [x [Hin [Hx Hk]]]]. exists t. split; [exact Hin|]. unfold seg_target_matches, ctx_key_by_kind. rewrite Hx.
+    cbn [option_map]. rewrite (Hp t Hin). unfold find_key. apply mem_str_In. exact Hk.
+Qed.
+
+Lemma included_any_unfolds sg :
+  included_any sg = (match ctx_key_by_kind c kind_user with Some k => find_key k (sg_included sg) (sg_pre_inc sg) | None => false end
+                     || per_kind (sg_inc_ctx sg))%bool /\
+  excluded_any sg = (match ctx_key_by_kind c kind_user with Some k => find_key k (sg_excluded sg) (sg_pre_exc sg) | None => false end
+                     || per_kind (sg_exc_ctx sg))%bool.
+Proof. split; reflexivity. Qed.
 
 (* a regular segment that is not on the current path: lists first, then the first matching rule *)
 Lemma p_seg_regular n chain sg :
